@@ -7,7 +7,11 @@ package suites
 
 import (
 	"fmt"
+	"go/ast"
+	"go/parser"
+	"go/token"
 	"os"
+	"os/exec"
 	"path/filepath"
 	"time"
 
@@ -17,7 +21,18 @@ import (
 	"verifharness/core"
 )
 
-func init() { core.Register("timeslot", timeslotSuite) }
+func init() {
+	core.Register("timeslot", timeslotSuite)
+	core.Register("genesisprobe", genesisProbe)
+}
+
+// genesisprobe: prints the build's GenesisTime as this process sees it (run under several TZ values by the
+// timeslot suite: the constant must not depend on the zone the process runs in)
+func genesisProbe(seed uint64, tier, outDir string) (*core.Result, error) {
+	res := core.NewResult("genesisprobe", seed, tier)
+	os.WriteFile(filepath.Join(outDir, "genesis.txt"), []byte(fmt.Sprint(int64(glow.GenesisTime))), 0644)
+	return res, nil
+}
 
 func timeslotSuite(seed uint64, tier, outDir string) (*core.Result, error) {
 	res := core.NewResult("timeslot", seed, tier)
@@ -133,6 +148,25 @@ func timeslotSuite(seed uint64, tier, outDir string) (*core.Result, error) {
 		}
 		res.Required = append(res.Required, "current.sandwich")
 		cadenceWitness(res)
+		// the genesis constant in other time zones (the value is fixed when the process starts)
+		for _, tz := range []string{"America/Los_Angeles", "Europe/Berlin", "Asia/Tokyo", "UTC"} {
+			d, err := os.MkdirTemp("", "vh-genesis-")
+			if err != nil {
+				continue
+			}
+			cmd := exec.Command(os.Args[0], "-out", d, "genesisprobe")
+			cmd.Env = append(os.Environ(), "TZ="+tz)
+			if cmd.Run() == nil {
+				if b, err := os.ReadFile(filepath.Join(d, "genesis.txt")); err == nil {
+					res.Count("genesis.zone")
+					if string(b) != fmt.Sprint(G) {
+						res.Fail(fmt.Sprintf("in a process whose time zone is %s the genesis time is %s, not %d (2023-11-19 00:00:00 UTC): devices and servers in different zones put the same reading into different timeslots", tz, b, G), "c20-genesis-zone", map[string]interface{}{"TZ": tz, "genesis": string(b)})
+					}
+				}
+			}
+			os.RemoveAll(d)
+		}
+		res.Required = append(res.Required, "genesis.zone")
 	}
 	res.Required = append(res.Required, "u2t.before", "u2t.boundary", "u2t.in-domain", "t2u.boundary", "t2u.in-domain")
 	res.Extra["genesis"] = G
@@ -175,6 +209,24 @@ func cadenceWitness(res *core.Result) {
 	if !(ok1 && ok2 && ok3 && ok4) || shift <= 0 {
 		return // the generated obligation c20_extraction_complete reports this
 	}
+	// two structural facts the schedule relies on, read from the source like the literals:
+	// (1) the rotation thread checks BEFORE it sleeps (after a restart with trigger < now-offset < start-up
+	//     bound the first check must happen at once), (2) migrateReports moves the window unconditionally
+	//     (no return before the offset is advanced, e.g. when fetching the week's data fails)
+	sleepFirst, earlyReturn := rotationStructure(filepath.Join(repo, "server/equipment.go"))
+	startBound, okb := pick("server/equipment.go", "launchMigrateReports", "<", 0)
+	if sleepFirst && okb {
+		P0 := (server.VerifConsts()["ReportMigrationFrequencyMs"] + 299999) / 300000
+		t0 := startBound - 10 // now - offset at the restart, just below the start-up catch-up bound
+		res.Fail(fmt.Sprintf("the rotation thread sleeps before its first check: after a restart with the clock %d slots past the window start (start-up catch-up only rotates from %d on) the window stays [0, %d) for a whole check period (%d slots), and a report for timeslot %d, acceptable by the +-%d rule, is dropped", t0, startBound, window, P0, t0+half, half),
+			"c20-first-check-delayed", map[string]interface{}{"clock_minus_offset_at_restart": t0, "period_slots": P0, "timeslot": t0 + half, "window": window})
+		return
+	}
+	if earlyReturn {
+		res.Fail(fmt.Sprintf("migrateReports can return before it advances the window (a return statement precedes the offset increment): when that path is taken at every check the window stays [0, %d) while the clock runs on, and from clock %d on a report acceptable by the +-%d rule is dropped", window, window-half, half),
+			"c20-rotation-conditional", map[string]interface{}{"window": window, "clock": window - half})
+		return
+	}
 	periodMs := server.VerifConsts()["ReportMigrationFrequencyMs"]
 	P := (periodMs + 299999) / 300000 // slots between two wake-ups, rounded up
 	if P < 1 {
@@ -205,4 +257,75 @@ func cadenceWitness(res *core.Result) {
 			}
 		}
 	}
+}
+
+// rotationStructure reads two facts from server/equipment.go: whether, in the endless loop of the thread
+// started by launchMigrateReports, a Sleep call comes before the comparison that triggers the rotation,
+// and whether migrateReports contains a return statement before the statement that advances the offset.
+func rotationStructure(file string) (sleepFirst, earlyReturn bool) {
+	fs := token.NewFileSet()
+	f, err := parser.ParseFile(fs, file, nil, 0)
+	if err != nil {
+		return false, false
+	}
+	for _, d := range f.Decls {
+		fd, ok := d.(*ast.FuncDecl)
+		if !ok || fd.Body == nil {
+			continue
+		}
+		switch fd.Name.Name {
+		case "launchMigrateReports":
+			// the last for-statement without condition (the periodic loop)
+			var loop *ast.ForStmt
+			ast.Inspect(fd.Body, func(n ast.Node) bool {
+				if fl, ok := n.(*ast.FuncLit); ok {
+					ast.Inspect(fl.Body, func(m ast.Node) bool {
+						if fr, ok := m.(*ast.ForStmt); ok && fr.Cond == nil {
+							loop = fr
+						}
+						return true
+					})
+				}
+				return true
+			})
+			if loop == nil {
+				continue
+			}
+			sleepPos, cmpPos := token.NoPos, token.NoPos
+			ast.Inspect(loop.Body, func(n ast.Node) bool {
+				switch v := n.(type) {
+				case *ast.CallExpr:
+					if se, ok := v.Fun.(*ast.SelectorExpr); ok && se.Sel.Name == "Sleep" && sleepPos == token.NoPos {
+						sleepPos = v.Pos()
+					}
+				case *ast.IfStmt:
+					if cmpPos == token.NoPos {
+						if be, ok := v.Cond.(*ast.BinaryExpr); ok && (be.Op == token.GTR || be.Op == token.GEQ) {
+							cmpPos = v.Pos()
+						}
+					}
+				}
+				return true
+			})
+			sleepFirst = sleepPos != token.NoPos && cmpPos != token.NoPos && sleepPos < cmpPos
+		case "migrateReports":
+			incPos := token.NoPos
+			ast.Inspect(fd.Body, func(n ast.Node) bool {
+				if as, ok := n.(*ast.AssignStmt); ok && as.Tok == token.ADD_ASSIGN && incPos == token.NoPos {
+					incPos = as.Pos()
+				}
+				return true
+			})
+			ast.Inspect(fd.Body, func(n ast.Node) bool {
+				if _, ok := n.(*ast.FuncLit); ok {
+					return false
+				}
+				if r, ok := n.(*ast.ReturnStmt); ok && incPos != token.NoPos && r.Pos() < incPos {
+					earlyReturn = true
+				}
+				return true
+			})
+		}
+	}
+	return
 }
